@@ -319,31 +319,42 @@ Proof.
   { intros v Hv. destruct (In_nth _ _ 0 Hv) as (i & Hi & <-). apply Rle_trans with (nth i (snd p) 0); [apply ple_nth; auto|apply R0, nth_In; lia]. }
   intros v [Hv|Hv]; cbn [fst snd] in Hv; apply in_map_iff in Hv; destruct Hv as (x & <- & Hx); apply in_rev in Hx; [specialize (R0 x Hx)|specialize (L0 x Hx)]; lra.
 Qed.
+(* every route of the Frechet product ends in the Staircase constructor (or in a negation / number operation, which end in it too):
+   whatever it returns is well formed, whatever the operands were *)
+Lemma pneg_total_wf p r : pneg RN steps plo phi p = Ok r -> WFs r.
+Proof. unfold pneg, mk_staircase_lists. apply mk_total_wf. Qed.
+Lemma pnum_total_wf f p c r : pnum RN steps plo phi f p c = Ok r -> WFs r.
+Proof. unfold pnum, mk_staircase_lists. apply mk_total_wf. Qed.
+Lemma classic_mul_total_wf p q r : classic_mul RN steps plo phi p q = Ok r -> WFs r.
+Proof. unfold classic_mul. destruct (frechet_op _ _ _ _ _ _) as [l r']. unfold mk_staircase. apply mk_total_wf. Qed.
+Lemma classic_add_total_wf p q r : classic_add RN steps plo phi p q = Ok r -> WFs r.
+Proof. unfold classic_add. destruct (frechet_op _ _ _ _ _ _) as [l r']. unfold mk_staircase. apply mk_total_wf. Qed.
+Lemma pimp_total_wf p q r : pimp RN steps plo phi p q = Ok r -> WFs r.
+Proof. unfold pimp. cbn zeta. destruct (existsb _ _); [discriminate|]. unfold mk_staircase_lists. apply mk_total_wf. Qed.
+Lemma frechet_mul_signed_wf p q r : frechet_mul_signed RN steps plo phi p q = Ok r -> WFs r.
+Proof.
+  unfold frechet_mul_signed. destruct (_ || _); [|apply classic_mul_total_wf].
+  destruct (if nleb RN (p_hi_ RN p) nzero then _ else _) as [a| |]; cbn [rbind]; try discriminate.
+  destruct (if nleb RN (p_hi_ RN q) nzero then _ else _) as [b| |]; cbn [rbind]; try discriminate.
+  destruct (classic_mul RN steps plo phi a b) as [c| |] eqn:Ec; cbn [rbind]; try discriminate.
+  destruct (xorb _ _); [apply pneg_total_wf | intros E; inversion E; subst; eapply classic_mul_total_wf; exact Ec].
+Qed.
+Lemma balchprod_wf p q r : balchprod RN steps plo phi p q = Ok r -> WFs r.
+Proof.
+  unfold balchprod. destruct (straddles_zero RN p && straddles_zero RN q).
+  - repeat (match goal with |- rbind ?x _ = _ -> _ => destruct x as [?| |]; cbn [rbind]; try discriminate end). apply pnum_total_wf.
+  - destruct (straddles_zero RN p); [discriminate|]. destruct (straddles_zero RN q); [|apply frechet_mul_signed_wf].
+    repeat (match goal with |- rbind ?x _ = _ -> _ => destruct x as [?| |]; cbn [rbind]; try discriminate end). apply classic_add_total_wf.
+Qed.
+Lemma straddle_mul_wf p q r : straddle_mul RN steps plo phi p q = Ok r -> WFs r.
+Proof.
+  unfold straddle_mul. destruct (naive_mul RN steps plo phi p q) as [nv| |]; cbn [rbind]; try discriminate.
+  destruct (balchprod RN steps plo phi p q) as [bp| |]; cbn [rbind]; try discriminate. apply pimp_total_wf.
+Qed.
 Lemma frechet_mul_wf p q r : (0 < steps)%nat -> WFs p -> WFs q -> frechet_mul RN steps plo phi p q = Ok r -> WFs r.
 Proof.
-  intros Hs Wp Wq E. unfold frechet_mul in E.
-  destruct (straddles_zero RN p) eqn:Sp; [discriminate|]. destruct (straddles_zero RN q) eqn:Sq; [discriminate|]. cbn [orb] in E.
-  (* an operand that is not entirely <= 0 and does not straddle zero is >= 0 *)
-  assert (Pos : forall x, WFs x -> straddles_zero RN x = false -> nleb RN (p_hi_ RN x) nzero = false -> nonneg_box x).
-  { intros x Wx Sx Hx. apply nonneg_of_min; auto. unfold straddles_zero in Sx. cbn [nltb nleb RN T] in *. unfold nzero in *; cbn [nofZ RN] in *.
-    apply Rleb_false in Hx. apply andb_false_iff in Sx. destruct Sx as [Sx|Sx]; apply Rltb_false in Sx; [exact Sx|].
-    exfalso. unfold p_hi_, lastn in Hx. assert (last (snd x) 0 <= maxl RN (snd x)).
-    { apply maxl_ge. destruct Wx as [_ A2 _ _ _]. rewrite last_as_nth. apply nth_In. lia. }
-    unfold nzero in *; cbn [nofZ RN T] in *. lra. }
-  assert (Neg : forall x, WFs x -> nleb RN (p_hi_ RN x) nzero = true -> exists nx, pneg RN steps plo phi x = Ok nx /\ WFs nx /\ nonneg_box nx).
-  { intros x Wx Hx. rewrite (pneg_steps steps plo phi x Wx). eexists; split; [reflexivity|]. split; [apply WF_neg; auto|].
-    apply nonneg_neg; auto. cbn [nleb RN] in Hx. apply Rleb_true in Hx. unfold p_hi_, lastn, nzero in Hx; cbn [nofZ RN T] in Hx. exact Hx. }
-  destruct (nleb RN (p_hi_ RN p) nzero) eqn:Hp; destruct (nleb RN (p_hi_ RN q) nzero) eqn:Hq; cbn [orb xorb] in E.
-  - destruct (Neg p Wp Hp) as (a & Ea & Wa & Na). destruct (Neg q Wq Hq) as (b & Eb & Wb & Nb). rewrite Ea, Eb in E. cbn [rbind] in E.
-    destruct (classic_mul RN steps plo phi a b) as [c| |] eqn:Ec; cbn [rbind] in E; try discriminate. inversion E; subst.
-    eapply classic_mul_wf; [exact Wa|exact Wb|exact Na|exact Nb|exact Ec].
-  - destruct (Neg p Wp Hp) as (a & Ea & Wa & Na). rewrite Ea in E. cbn [rbind] in E.
-    destruct (classic_mul RN steps plo phi a q) as [c| |] eqn:Ec; cbn [rbind] in E; try discriminate.
-    eapply pneg_wf; [|exact E]. eapply classic_mul_wf; [exact Wa|exact Wq|exact Na|apply Pos; auto|exact Ec].
-  - destruct (Neg q Wq Hq) as (b & Eb & Wb & Nb). rewrite Eb in E. cbn [rbind] in E.
-    destruct (classic_mul RN steps plo phi p b) as [c| |] eqn:Ec; cbn [rbind] in E; try discriminate.
-    eapply pneg_wf; [|exact E]. eapply classic_mul_wf; [exact Wp|exact Wb|apply Pos; auto|exact Nb|exact Ec].
-  - eapply classic_mul_wf; [exact Wp|exact Wq|apply Pos; auto|apply Pos; auto|exact E].
+  intros _ _ _. unfold frechet_mul. destruct (_ || _); [|apply frechet_mul_signed_wf].
+  destruct (straddles_zero RN q); apply straddle_mul_wf.
 Qed.
 Lemma pmul_nf_wf d p q r : d <> DF -> WFs p -> WFs q ->
   (let '(l, r') := dep_op RN d Rmult (fst p) (snd p) (fst q) (snd q) in mkS l r') = Ok r -> WFs r.
